@@ -385,6 +385,11 @@ func (fr *Frame) enterLoop(li *loopInfo, pre *State, pc Term) *State {
 	sort.Slice(ck, func(i, j int) bool { return valueKey(ck[i]) < valueKey(ck[j]) })
 	for _, c := range ck {
 		if _, live := pre.cells[c]; !live {
+			if _, isDefer := c.(deferKey); isDefer {
+				// a defer statement inside the loop that has not run before
+				// the loop may have run after it
+				st.cells[c] = vc.fresh("loop:defer", SBool)
+			}
 			continue
 		}
 		var t types.Type
